@@ -330,6 +330,9 @@ class Canon:
             if isinstance(e.lower, ast.Constant) and e.lower.value == 0:
                 e.lower = None
             return e
+        if isinstance(e, ast.Call) and isinstance(e.func, ast.Name) and e.func.id in ("isinstance", "issubclass") and len(e.args) == 2 and isinstance(e.args[1], ast.Tuple) and not e.keywords:
+            e.args[1].elts = sorted(e.args[1].elts, key=norm)        # the order of the classes does not matter
+            return e
         if isinstance(e, ast.Call) and isinstance(e.func, ast.Name) and e.func.id == "range" and not e.keywords:
             e.args = [self.linear(a, True) for a in e.args]
             if len(e.args) == 2 and isinstance(e.args[0], ast.Constant) and e.args[0].value == 0:
@@ -3076,7 +3079,47 @@ def _compare_summaries(code, ref, near=0.7):
         elif d[0] == "differs":
             if not _mutation_like(d[2], d[3]):
                 return "near", details
+            if d[1] == "effect" and _store_location(d[2]) is not None:
+                # a store is observable through the LAST value written to the location on a path: where the function writes the
+                # location more than once, the values of the single stores may differ while what is left there does not
+                loc = _store_location(d[2])
+                if sum(1 for k2 in gb if k2[0] == "effect" and _store_location(k2[1]) == loc) > 1 or sum(1 for k2 in ga if k2[0] == "effect" and _store_location(k2[1]) == _store_location(d[3])) > 1:
+                    return "near", details
+            # a few leaf tokens apart is a candidate; the verdict needs a witness (sa/refute.py): operand values, compatible with
+            # both path conditions, for which the two expressions evaluate differently
+            from . import refute
+            if refute.refute_heads(d[2], d[3], [f_ for f_ in (gb.get((d[1], d[2])), ga.get((d[1], d[3]))) if f_ is not None]) is not True:
+                return "near", details
     return "differs", details
+
+
+def _store_location(head):
+    """`T[k]` / `T.a` of a store effect `T[k] = v`, `T.a = v`, `T[k] op= v`; None for anything else"""
+    import re
+    if head.startswith(("call ", "yield ", "del ")):
+        return None
+    m = re.match(r"^(.+?) (?:[-+*/%&|^]|<<|>>|//)?= ", head)
+    if not m:
+        return None
+    loc = m.group(1)
+    return loc if loc.count("(") == loc.count(")") and loc.count("[") == loc.count("]") else None
+
+
+def _witnessed(details, s_code, s_ref):
+    """some paired component of the two summaries differs for a witness valuation (sa/refute.py)"""
+    from . import refute
+    ga, _oa = s_code.grouped()
+    gb, _ob = s_ref.grouped()
+    for d in details:
+        if d[0] == "differs" and d[2] and d[3]:
+            if refute.refute_heads(d[2], d[3], [f_ for f_ in (gb.get((d[1], d[2])), ga.get((d[1], d[3]))) if f_ is not None]) is True:
+                return True
+        elif d[0] == "condition":
+            k = (d[1], d[2].rsplit(" when ", 1)[0])
+            fa, fb = ga.get(k), gb.get(k)
+            if fa is not None and fb is not None and refute.refute_conditions(fb, fa) is True:
+                return True
+    return False
 
 
 def _mutation_like(ref_text, code_text, limit=3):
@@ -3115,7 +3158,12 @@ def _condition_mutation(f_code, f_ref, all_code=None, all_ref=None, extra=()):
         return True
     only_a, only_b = sorted(a - b), sorted(b - a)
     if len(only_a) == len(only_b) == 1 and _mutation_like(only_b[0], only_a[0], 2):
-        return True
+        from . import refute
+        r_ = refute.refute_atoms(only_b[0], only_a[0])
+        if os.environ.get("VERIF_REFUTE_DEBUG"):
+            print("REFUTE atoms", r_, "|", only_b[0][:200], "|", only_a[0][:200])
+        if r_ is True:       # `n > 20` for `n >= 21` is the same test
+            return True
     if POLICY not in ("strict", "cautious") and only_a and not only_b and extra and all_code is not None and all_ref is not None \
             and not (set(only_a) & all_ref) and not (all_ref - all_code):
         # tests added, new to the function, none lost, AND the function has a way out or an effect the reference does not
@@ -3126,6 +3174,12 @@ def _condition_mutation(f_code, f_ref, all_code=None, all_ref=None, extra=()):
         # tests dropped: a case is no longer checked -- provided the function as a whole lost them (they did not move to
         # another component) and gained none (it does not test the same thing another way).  Tests ADDED are no verdict:
         # a defensive check that can never fire reads exactly like a new refusal.
+        from . import refute
+        r_ = refute.refute_conditions(f_ref, f_code)
+        if os.environ.get("VERIF_REFUTE_DEBUG"):
+            print("REFUTE dropped", r_, "|", only_b[:3])
+        if r_ is False:
+            return False        # every valuation the two conditions can be evaluated for gives the same answer: the dropped test was implied by the others
         if all_code is None or all_ref is None:
             return True
         if not (all_code - all_ref) and not (set(only_b) & all_code):
@@ -3378,7 +3432,7 @@ def reference_status(ctx, fi, ref_source, ref_names, int_names=None, leaf=None, 
                 details = [("state", "effect", "(the reviewed closure changes no object of its enclosing function)", "changes %s of the enclosing function in place" % ", ".join(sorted(cm_code)), 1.0)] + list(details)
         if status in ("near", "unrecognised"):
             sm_ = source_mutation(getattr(fi, "original", fi).node, ref_node)
-            if sm_:
+            if sm_ and _witnessed(details, s_code, s_ref):
                 status = "differs"
                 details = [("source", "token", " , ".join(a for a, _b in sm_), " , ".join(b for _a, b in sm_), 1.0)] + list(details)
         if status != "same":
